@@ -9,7 +9,8 @@ import z3
 Z3_TIMEOUT_MS = int(os.environ.get("PYVC_Z3_TIMEOUT_MS", "10000"))
 CVC5_TIMEOUT_S = int(os.environ.get("PYVC_CVC5_TIMEOUT_S", "10"))
 STATS = {"z3": [0, 0.0], "cvc5": [0, 0.0], "structural": [0, 0.0], "frame": [0, 0.0], "sympy": [0, 0.0],
-         "flow": [0, 0.0]}
+         "flow": [0, 0.0], "last_chance": [0, 0.0]}
+LAST_CHANCE = [int(os.environ.get("PYVC_LAST_CHANCE", "4"))]
 
 
 def model_to_dict(m, limit=80):
@@ -197,6 +198,22 @@ def discharge(ob, timeout_ms=None, use_cvc5=True, hard=False):
             if res == "unsat":
                 ob.status = "proved"
                 ob.backend = "cvc5"
+        if ob.status == "unknown" and LAST_CHANCE[0] > 0:
+            # last chance (a loaded machine must not turn a provable obligation into "undecided"): fresh solver, other
+            # seed, four times the budget, hard wall-clock limit; at most a few per process
+            LAST_CHANCE[0] -= 1
+            budget = (timeout_ms or Z3_TIMEOUT_MS) / 1000.0
+            s3 = z3.Solver()
+            s3.set("timeout", int(4000 * budget))
+            s3.set("random_seed", 23)
+            s3.add(*s.assertions())
+            rs, m3 = _check_forked(s3, 4 * budget + 5.0)
+            STATS["last_chance"][0] += 1
+            if rs == "unsat":
+                ob.status = "proved"
+            elif rs == "sat":
+                ob.status = "refuted"
+                ob.model = m3
     ob.time = time.time() - t0
     STATS["z3"][0] += 1
     STATS["z3"][1] += ob.time
